@@ -1701,5 +1701,6 @@ func TestVerifC07(t *testing.T) {
 		kit.Run(t, "C07", f.name, kit.N(f.quick, f.t), func(c *kit.Case) { runHistory(c, f.name) })
 	}
 	kit.Run(t, "C07", famIndep, kit.N(800, 12000), runIndep)
+	kit.Run(t, "C07", famIndepWide, kit.N(24, 400), runIndepWide)
 	kit.End()
 }
